@@ -89,10 +89,13 @@ type Dependency struct {
 }
 
 func (dep *Dependency) UnmarshalControl(data string) error {
-	ibuf := input{Index: 0, Data: data}
-	dep.Relations = []Relation{}
-	err := parseDependency(&ibuf, dep)
-	return err
+	/* Only touch dep once the whole field is known to be good */
+	ret, err := Parse(data)
+	if err != nil {
+		return err
+	}
+	dep.Relations = ret.Relations
+	return nil
 }
 
 func (dep Dependency) MarshalControl() (string, error) {
